@@ -98,7 +98,7 @@ def rand_cause(rnd, blocks, api):
     elif c == 'support_fail':
         op.update(op='support_fail', code=902)
     elif c == 'sigterm':
-        op['op'] = 'sigterm'
+        op['op'] = rnd.choice(['sigterm', 'sigterm_idle'])
     elif c == 'ctrl':
         op.update(op='hit', dest=rnd.choice(trig), value=7)
     else:
